@@ -168,6 +168,28 @@ fn read_workload(cf: &mut Cf) -> u64 {
         let _ = cf.is_stream(&p);
         let _ = cf.is_storage(&p);
         calls += 4;
+        // lookups BELOW the object (also below a stream, where nothing can be), by every lookup method,
+        // and through '.' / '..' spellings of the object itself
+        for leaf in ["x", "Root Entry", "foo"] {
+            let q = p.join(leaf);
+            let _ = cf.exists(&q);
+            let _ = cf.is_stream(&q);
+            let _ = cf.is_storage(&q);
+            let _ = cf.entry(&q);
+            if let Ok(it) = cf.read_storage(&q) {
+                let _ = it.take(5000).count();
+            }
+            if let Ok(it) = cf.walk_storage(&q) {
+                let _ = it.take(5000).count();
+            }
+            if let Ok(mut s) = cf.open_stream(&q) {
+                let mut small = [0u8; 16];
+                let _ = s.read(&mut small);
+            }
+            calls += 7;
+        }
+        let _ = cf.entry(p.join(".").join("x").join(".."));
+        calls += 1;
         if e.is_stream() {
             if let Ok(mut s) = cf.open_stream(&p) {
                 let len = s.len();
